@@ -122,7 +122,7 @@ func checkC17(o checkOpts) int {
 		Coverage: map[string]interface{}{
 			"evaluations":            agg.cases,
 			"distinct_nontrivial":    agg.distinct,
-			"rule":                   "one evaluation = one Encode call of a registry codec through the simulated PixelData source/sink with one fault (enumerated, not sampled): short read of every length from 1 byte short down to empty, empty/nil frame, transient GetFrame error, long frame, AddFrame error, FrameCount disagreeing, zero frames, missing FrameInfo, every FrameInfo field set to each of 19 boundary values, foreign / ill-typed / out-of-range parameters; followed by Decode of any stream returned. Every case differs from the valid call, hence non-trivial; distinct = distinct (codec, description, fault)",
+			"rule":                   "one evaluation = one Encode call of a registry codec through the simulated PixelData source/sink with one fault (enumerated, not sampled): short read of every length from 1 byte short down to empty, empty/nil frame, transient GetFrame error, long frame, AddFrame error, FrameCount disagreeing, zero frames, missing FrameInfo, every FrameInfo field set to each of 19 boundary values, foreign / ill-typed / out-of-range parameters, and every parameter set singly to the in-range values at and next to the ends of its documented range (both parameter implementations); followed by Decode of any stream returned. Every case differs from the valid call, hence non-trivial; distinct = distinct (codec, description, fault)",
 			"samples":                samples,
 			"exhaustive":             true,
 			"fault_kinds_fired":      agg.faults,
